@@ -58,6 +58,9 @@ var (
 
 func run(pass *analysis.Pass) (any, error) {
 	fn := func(node ast.Node) {
+		if !code.PackageNameResolves(pass, node.Pos(), "fmt", "fmt") {
+			return
+		}
 		getRecv := func(m *pattern.Matcher) (ast.Expr, types.Type) {
 			recv := m.State["recv"].(ast.Expr)
 			recvT := pass.TypesInfo.TypeOf(recv)
@@ -68,6 +71,12 @@ func run(pass *analysis.Pass) (any, error) {
 			// We assume the receiver expression is addressable
 			// since otherwise the code wouldn't compile.
 			if _, ok := types.Unalias(recvT).(*types.Named); ok && !types.IsInterface(recvT) {
+				if tv := pass.TypesInfo.Types[recv]; !tv.Addressable() {
+					if _, ok := ast.Unparen(recv).(*ast.CompositeLit); !ok {
+						// &f() is not valid Go
+						return recv, types.Typ[types.Invalid]
+					}
+				}
 				recvT = types.NewPointer(recvT)
 				recv = &ast.UnaryExpr{Op: token.AND, X: recv}
 
